@@ -85,3 +85,19 @@ class LoggingBytesIO(io.BytesIO):
     def truncate(self, *a):
         self.log.append(("truncate",) + a)
         return super().truncate(*a)
+
+
+class FlushedView(io.BytesIO):
+    """Seekable in-memory stream that behaves like a buffered file read through a second
+    handle: ``flushed`` is what has reached the far side, i.e. the content as of the last
+    ``flush()`` call."""
+
+    def __init__(self, *a):
+        super().__init__(*a)
+        self.flushed = b""
+        self.flush_calls = 0
+
+    def flush(self):
+        super().flush()
+        self.flush_calls += 1
+        self.flushed = self.getvalue()
